@@ -1438,3 +1438,75 @@ Lemma removed_command d w name v :
 Proof.
   intros H. split; [exact (removed_command_rule d name H) | exact (missing_command_never_valid d w name v H)].
 Qed.
+
+(* virtual input nodes: a valid stored value is what the task completes with again *)
+Lemma virtual_input_rerun v :
+  kind_is v VVirtualInput = true -> bv_infos v = [] -> value_equiv (v_simple VVirtualInput) v = true.
+Proof.
+  intros K I. apply kind_is_eq in K. unfold value_equiv. rewrite K, I. reflexivity.
+Qed.
+
+(* ---------- more non-vacuity: phony / dependents / mkdir / symlink ---------- *)
+
+Example ex_phony_rerun :
+  run_external cat_fn 2 (bs_world ex_state) ex_call (Some (val_of ex_state (KC [67;46;97;108;108])))
+               [val_of ex_state (KN ex_out); val_of ex_state (KN ex_out2)]
+  = Some (bs_world ex_state, command_result 2 (bs_world ex_state) (cm_outputs ex_call), true) /\
+  forallb node_virtual (cm_outputs ex_call) = true.
+Proof. vm_compute. split; reflexivity. Qed.
+
+Definition ex_world_rerun : world :=
+  write_outputs cat_fn ex_cb (input_contents (bs_world ex_state) (cm_inputs ex_cb)) (cm_outputs ex_cb) 0 (bs_world ex_state).
+
+Example ex_dependents_see_change :
+  exists a b, result_for_output ex_cb ex_out (val_of ex_state (KC [67;46;98])) = Some a /\
+              result_for_output ex_cb ex_out (command_result 2 ex_world_rerun (cm_outputs ex_cb)) = Some b /\
+              value_equiv a b = false /\ content_w ex_world_rerun ex_out = content_w (bs_world ex_state) ex_out.
+Proof.
+  eexists. eexists. split; [vm_compute; reflexivity|]. split; [vm_compute; reflexivity|]. vm_compute. split; reflexivity.
+Qed.
+
+Definition ex_dir : path := [100;49].
+Definition ex_lnk : path := [108;110;107].
+Definition ex_cmk : command := mkCmd TMkdir (ex_def [67;46;109] [] [ex_dir] []) [].
+Definition ex_cln : command := mkCmd TSymlink (ex_def [67;46;108] [ex_mid] [ex_lnk] []) ex_mid.
+Definition ex_call5 : command := mkCmd TPhony (ex_def [67;46;97;108;108] [ex_out; ex_out2; ex_dir; ex_lnk] [ex_all] []) [].
+Definition ex_d5 : desc := mkDesc [ex_ca; ex_cb; ex_cmk; ex_cln; ex_call5] [] [([], [ex_all])].
+Definition ex_state5 : bstate :=
+  match clean cat_fn ex_d5 ex_sources [] with BOk st => st | _ => mkBS empty_world [] [] end.
+
+Example ex_wf_d5 : wf_desc ex_d5.
+Proof.
+  unfold wf_desc. split; [|split; [|split]].
+  - cbn. repeat (constructor; [cbn; intuition discriminate|]). constructor.
+  - intros c [<-|[<-|[<-|[<-|[<-|[]]]]]]; unfold wf_command; cbn; (split; [repeat (constructor; [cbn; intuition discriminate|]); constructor|]);
+      (split; [discriminate|]); intros [H|H];
+      first [discriminate H | (eexists; split; [reflexivity | split; [reflexivity | discriminate]])].
+  - intros c1 c2 o [<-|[<-|[<-|[<-|[<-|[]]]]]] [<-|[<-|[<-|[<-|[<-|[]]]]]] O1 O2; try reflexivity; cbn in O1, O2;
+    cbv [ex_mid ex_out ex_out2 ex_all ex_src ex_src2 ex_dir ex_lnk] in O1, O2; exfalso; intuition congruence.
+  - intros c o [<-|[<-|[<-|[<-|[<-|[]]]]]] O; cbn in O; intuition (subst; reflexivity).
+Qed.
+
+Example ex_clean5_ok : clean cat_fn ex_d5 ex_sources [] = BOk ex_state5.
+Proof. vm_compute. reflexivity. Qed.
+
+(* the directory and the link are there, their commands' values are valid; deleting either, or replacing the link,
+   is noticed; running mkdir again changes nothing *)
+Example ex_mkdir_symlink :
+  fi_is_dir (stat_w (bs_world ex_state5) ex_dir) = true /\
+  content_w (bs_world ex_state5) ex_lnk = Some ex_mid /\
+  cmd_valid ex_d5 (bs_world ex_state5) ex_cmk (val_of ex_state5 (KC [67;46;109])) = Valid /\
+  cmd_valid ex_d5 (bs_world ex_state5) ex_cln (val_of ex_state5 (KC [67;46;108])) = Valid /\
+  cmd_valid ex_d5 (del (bs_world ex_state5) ex_dir) ex_cmk (val_of ex_state5 (KC [67;46;109])) = Invalid /\
+  cmd_valid ex_d5 (del (bs_world ex_state5) ex_lnk) ex_cln (val_of ex_state5 (KC [67;46;108])) = Invalid /\
+  cmd_valid ex_d5 (put (bs_world ex_state5) ex_lnk [120] (fresh (bs_world ex_state5) mode_link 1)) ex_cln
+            (val_of ex_state5 (KC [67;46;108])) = Invalid /\
+  run_external cat_fn 2 (bs_world ex_state5) ex_cmk None []
+  = Some (bs_world ex_state5, command_result 2 (bs_world ex_state5) (cm_outputs ex_cmk), true).
+Proof. vm_compute. repeat split; reflexivity. Qed.
+
+(* a changed argument list is a changed relevant part (the premise of command_edit_changes_sig is met by the
+   signature area's sig_injective under its ideal-hash premise, which its toy hash satisfies) *)
+Example ex_changed_args :
+  relevant (cm_def ex_cb) <> relevant (ex_def [67;46;98] [ex_mid; ex_src2] [ex_out; ex_out2] [[66;50]]).
+Proof. vm_compute. discriminate. Qed.
